@@ -9,6 +9,7 @@ pub fn generate(kind: &str, r: &mut Rng, i: u64) -> Vec<String> {
         "link-exact" => link_exact(r, i),
         "link-burst" => link_burst(r, i),
         "hostile" => hostile(r, i),
+        "wirepeer" => wirepeer(r, i),
         "conn" => conn(r, i, false),
         "conn-cycles" => conn(r, i, true),
         _ => panic!("unknown generator {kind}"),
@@ -773,6 +774,83 @@ fn conn(r: &mut Rng, _i: u64, cycles: bool) -> Vec<String> {
     l.push("dropall".into());
     l.push("settle".into());
     l.push("tasks".into());
+    l.push("end".into());
+    l
+}
+
+/// C09 on the wire: one real endpoint talks to a spec peer (the script) that announces protocol
+/// version 2 or 3; the endpoint opens ports through its client (default and custom ids) and sends
+/// port batches over a port (default and custom ids, split over several frames by small credits),
+/// data of various sizes, credits, closes and finishes.  Every frame it emits is checked against the
+/// spec codec and against what may be sent to a peer of that version.
+fn wirepeer(r: &mut Rng, _i: u64) -> Vec<String> {
+    let ver = *r.pick(&[2u64, 3, 3, 2, 1, 4]);
+    let chunk = *r.pick(&[4u64, 8, 16]);
+    let rbuf = *r.pick(&[4u64, 8, 16, 64]);
+    let mut l = vec!["mode wirepeer".to_string()];
+    l.push(format!("cfg B chunk={chunk} buf={} cq=4 ports=32 maxdata=64", *r.pick(&[8u64, 16, 64])));
+    l.push("startb".into());
+    l.push("injectm A reset".into());
+    l.push(format!("injectm A hello {ver} 0 {} {rbuf} 8", *r.pick(&[4u64, 8, 16])));
+    l.push("settle".into());
+    let mut k = 0u32;
+    let mut nopen = 0u32;
+    let mut ports: Vec<String> = Vec::new();
+    for _ in 0..r.range(2, 8) {
+        k += 1;
+        match r.below(10) {
+            0..=3 => {
+                // the endpoint connects, with a default or a custom id
+                if r.bool() {
+                    l.push(format!("connect c{k} B q{k} wait={} id={}", r.bool() as u8, 100000 + k));
+                } else {
+                    l.push(format!("connect c{k} B q{k} wait={}", r.bool() as u8));
+                }
+                l.push("settle".into());
+                l.push(format!("injectm A portOpened $open{nopen} {}", 7000 + k));
+                l.push("settle".into());
+                nopen += 1;
+                ports.push(format!("q{k}"));
+            }
+            4..=6 => {
+                if let Some(p) = ports.first().cloned() {
+                    l.push(format!(
+                        "pconnect pc{k} B {p} n={} wait={} ids={}",
+                        r.range(1, 5),
+                        r.bool() as u8,
+                        if r.bool() { "custom" } else { "default" }
+                    ));
+                    l.push("settle".into());
+                    // hand out credits so that a batch split over several frames can continue
+                    for _ in 0..3 {
+                        l.push(format!("injectm A portCredits ${p} 8"));
+                        l.push("settle".into());
+                    }
+                }
+            }
+            7 | 8 => {
+                if let Some(p) = ports.first().cloned() {
+                    let n = r.below(3 * chunk + 2) as usize;
+                    l.push(format!("send s{k} B {p} {}", hex(&r.bytes(n))));
+                    l.push("settle".into());
+                    l.push(format!("injectm A portCredits ${p} {}", n.max(1)));
+                    l.push("settle".into());
+                }
+            }
+            _ => {
+                if let Some(p) = ports.first().cloned() {
+                    match r.below(3) {
+                        0 => l.push(format!("close cl{k} B {p}")),
+                        1 => l.push(format!("drop B {p} rx")),
+                        _ => l.push(format!("drop B {p} tx")),
+                    }
+                    l.push("settle".into());
+                }
+            }
+        }
+    }
+    l.push("dropall".into());
+    l.push("settle".into());
     l.push("end".into());
     l
 }
